@@ -65,7 +65,7 @@ def spec_names(spec):
 
 class Target(object):
     """the generated callable + its raw twin + evaluation log"""
-    def __init__(self, spec, kind='func', partial=None):
+    def __init__(self, spec, kind='func', partial=None, rmode='tuple'):
         self.spec, self.kind = spec, kind
         D = dict((n, dec(v)) for n, v in spec['def'])
         D.update((n, dec(v)) for n, has, v in spec['kwonly'] if has)
@@ -73,6 +73,8 @@ class Target(object):
         names = spec_names(spec) + (['args'] if spec['var'] else []) + [n for n, _, _ in spec['kwonly']]
         ret = "('R', %s%s)" % (''.join(n + ', ' for n in names),
                                'tuple(sorted(kw.items()))' if spec['kw'] else '')
+        if rmode == 'str':
+            ret = 'repr(%s)' % ret
         seen = '(%s)' % ''.join(n + ', ' for n in names + (['kw'] if spec['kw'] else []))
         self.ns = {'__name__': '__kvprobe__', '_LOG': [], '_SEEN': [], '_D': D}
         if kind == 'method':
